@@ -70,9 +70,13 @@ class SignatureTrie:
             tyvar = None
             for dtype, child in self.children.items():
                 base_type = types.without_const(dtype)
-                match_dtype = (
-                    tyvars[base_type.name] if isinstance(base_type, Tyvar) and base_type.name in tyvars else dtype
-                )
+                if isinstance(base_type, Tyvar) and base_type.name in tyvars:
+                    # the type variable is already bound; the parameter keeps its own constness
+                    match_dtype = types.without_const(tyvars[base_type.name])
+                    if types.is_const(dtype):
+                        match_dtype = types.with_const(match_dtype)
+                else:
+                    match_dtype = dtype
                 if isinstance(types.without_const(match_dtype), Tyvar):
                     assert tyvar is None
                     tyvar = dtype
